@@ -238,6 +238,13 @@ fn panic_fail(w: &mut W, idx: u64, case: &dyn Fn() -> Value, p: vcore::Panic, st
     }
 }
 
+thread_local! {
+    /// Known finding D9b-tfm-too-big, predicate on the case: the generator of the current case
+    /// computed that its tables need this many words in the .tfm (0 = not computed / fits).
+    static NEEDS_WORDS: std::cell::Cell<usize> = const { std::cell::Cell::new(0) };
+}
+const MAX_TFM_WORDS: usize = 32767;
+
 /// TFM bytes produced by the crate must be accepted by its own reader and by the independent one.
 fn check_reread(w: &mut W, idx: u64, case: &dyn Fn() -> Value, bytes: &[u8], stage: &str) -> bool {
     match catch(|| tfm::File::deserialize(bytes).0.map(|_| ()).map_err(|e| format!("{e:?}"))) {
@@ -246,6 +253,20 @@ fn check_reread(w: &mut W, idx: u64, case: &dyn Fn() -> Value, bytes: &[u8], sta
             return false;
         }
         Ok(Err(e)) => {
+            // Known finding D9b-tfm-too-big: the case needs more than 32767 words (predicate on the
+            // case) AND pl_to_tfm returned and the reader's reason is exactly the saturated length
+            // (adjusted expectation). Any other reason, or a panic, stays a failure.
+            let needs = NEEDS_WORDS.with(|c| c.get());
+            if needs > MAX_TFM_WORDS && stage == "pl_to_tfm" && e.starts_with("InconsistentSubFileSizes") && bytes.len() >= 2 && bytes[0] == 0x7f && bytes[1] == 0xff {
+                w.acc.class("known: tables need more than 32767 words, length field saturates (D9b-tfm-too-big)");
+                w.acc.known("D9b-tfm-too-big", idx, || {
+                    let mut v = case();
+                    v["needs_words"] = json!(needs);
+                    v["observed"] = json!(vcore::clip(&e, 200));
+                    v
+                });
+                return false;
+            }
             w.acc.class(&format!("REJECTED {stage}: {}", e.split('(').next().unwrap_or("")));
             note_site(w, &format!("{stage}: pl_to_tfm output rejected by File::deserialize: {}", e.split('(').next().unwrap_or("")), idx, case, &format!("{e} (TFM: {})", vcore::clip(&hex(bytes), 400)), &format!("{stage}: output of pl_to_tfm is not a readable TFM"), true);
             w.acc.fail(idx, case(), "pl_to_tfm output is accepted by the TFM reader", format!("{e} (TFM: {})", vcore::clip(&hex(bytes), 400)), format!("{stage}: output of pl_to_tfm is not a readable TFM"));
@@ -506,6 +527,7 @@ const TEMPLATES: &[(&str, &str)] = &[
     ("(CHARACTER C M (CHARWD R 1.0))(LIGTABLE (LABEL #)(LABEL #) (KRN # R #))", "cccf"),
     ("(FACE O #)(FACE F #)(SEVENBITSAFEFLAG #)", "icc"),
     ("(FACE D #)(FACE H #)", "ii"),
+    ("(SEVENBITSAFEFLAG TRUE)(CHARACTER C A (CHARWD R 1.0) (NEXTLARGER #))(CHARACTER O 200 (CHARWD R 1.0))(CHARACTER # (CHARWD R #))", "ccf"),
     ("(CODINGSCHEME #)(FAMILY #)(COMMENT #)", "ccc"),
     // more than 15 distinct heights / depths, more than 63 italics: the lossy table compression runs
     ("(CHARACTER C a (CHARHT R 0.1))(CHARACTER C b (CHARHT R 0.2))(CHARACTER C c (CHARHT R 0.3))(CHARACTER C d (CHARHT R 0.4))(CHARACTER C e (CHARHT R 0.5))(CHARACTER C f (CHARHT R 0.6))(CHARACTER C g (CHARHT R 0.7))(CHARACTER C h (CHARHT R 0.8))(CHARACTER C i (CHARHT R 0.9))(CHARACTER C j (CHARHT R 1.1))(CHARACTER C k (CHARHT R 1.2))(CHARACTER C l (CHARHT R 1.3))(CHARACTER C m (CHARHT R 1.4))(CHARACTER C n (CHARHT R 1.5))(CHARACTER C o (CHARHT R 1.6))(CHARACTER C p (CHARHT R #))(CHARACTER C q (CHARHT R #))(CHARACTER C r (CHARHT R #))", "fff"),
@@ -723,9 +745,10 @@ fn header_sweep_bases() -> Vec<(String, Vec<u8>)> {
     vec![("synthetic lh=18".into(), limit_tfm(&a, false).unwrap()), ("synthetic lh=20".into(), limit_tfm(&b, true).unwrap())]
 }
 
-fn limit_pl_cases() -> Vec<(String, String)> {
+/// (description, text, words the tables need in the .tfm if the generator computed it, else 0)
+fn limit_pl_cases() -> Vec<(String, String, usize)> {
     use std::fmt::Write as _;
-    let mut out = vec![];
+    let mut out: Vec<(String, String, usize)> = vec![];
     // LIGTABLE lengths around PLtoTF's limit (32767 - 257 = 32510 instructions)
     for n in [32509usize, 32510, 32511, 40000, 70000] {
         for label_at_end in [false, true] {
@@ -742,7 +765,7 @@ fn limit_pl_cases() -> Vec<(String, String)> {
                 s.push_str("(LABEL C B)(KRN C A R 0.5)(STOP)");
             }
             s.push_str(")\n");
-            out.push((format!("LIGTABLE of {n} instructions{}", if label_at_end { " and one more labelled chain after them" } else { "" }), s));
+            out.push((format!("LIGTABLE of {n} instructions{}", if label_at_end { " and one more labelled chain after them" } else { "" }), s, 0));
         }
     }
     // numbers of VARCHAR characters, parameters, header words, distinct dimensions, distinct kerns
@@ -751,12 +774,12 @@ fn limit_pl_cases() -> Vec<(String, String)> {
         for c in 0..n {
             let _ = writeln!(s, "(CHARACTER O {:o} (CHARWD R 1.0) (VARCHAR (TOP O {:o}) (REP O {:o})))", c, (c + 1) % n, c);
         }
-        out.push((format!("{n} characters with a VARCHAR each"), s));
+        out.push((format!("{n} characters with a VARCHAR each"), s, 0));
         let mut s = String::new();
         for c in 0..n {
             let _ = writeln!(s, "(CHARACTER O {:o} (CHARWD R 1.{:03}) (CHARHT R 0.{:03}) (CHARDP R 0.{:03}) (CHARIC R 0.{:03}) (NEXTLARGER O {:o}))", c, c, c + 1, 300 + c, 600 + c, (c + 1) % 256);
         }
-        out.push((format!("{n} characters with {n} distinct widths, heights, depths and italic corrections in one NEXTLARGER chain"), s));
+        out.push((format!("{n} characters with {n} distinct widths, heights, depths and italic corrections in one NEXTLARGER chain"), s, 0));
     }
     for n in [253usize, 254, 255, 256, 1000] {
         let mut s = String::from("(FONTDIMEN\n");
@@ -764,7 +787,7 @@ fn limit_pl_cases() -> Vec<(String, String)> {
             let _ = writeln!(s, "(PARAMETER D {i} R 0.{:03})", i % 1000);
         }
         s.push_str(")\n(CHARACTER C A (CHARWD R 1.0))");
-        out.push((format!("{n} font parameters"), s));
+        out.push((format!("{n} font parameters"), s, 0));
     }
     for codingscheme in ["TEX MATH SYMBOLS", "TEX MATH EXTENSION"] {
         for n in [21usize, 22, 23, 12, 13, 14] {
@@ -773,7 +796,7 @@ fn limit_pl_cases() -> Vec<(String, String)> {
                 let _ = writeln!(s, "(PARAMETER D {i} R 0.5)");
             }
             s.push_str(")\n");
-            out.push((format!("{codingscheme} with {n} parameters"), s));
+            out.push((format!("{codingscheme} with {n} parameters"), s, 0));
         }
     }
     for last in [254usize, 255, 256, 300] {
@@ -782,7 +805,7 @@ fn limit_pl_cases() -> Vec<(String, String)> {
             let _ = writeln!(s, "(HEADER D {i} O {:o})", (i as u32).wrapping_mul(2654435761));
         }
         s.push_str("(CHARACTER C A (CHARWD R 1.0))");
-        out.push((format!("HEADER D 18 .. HEADER D {last}"), s));
+        out.push((format!("HEADER D 18 .. HEADER D {last}"), s, 0));
     }
     for n in [255usize, 256, 257, 5000, 32510] {
         let mut s = String::from("(CHARACTER C A (CHARWD R 1.0))\n(LIGTABLE (LABEL C A)\n");
@@ -790,14 +813,16 @@ fn limit_pl_cases() -> Vec<(String, String)> {
             let _ = writeln!(s, "(KRN O {:o} R {}.{:04})", i % 256, i / 10000, i % 10000);
         }
         s.push_str("(STOP))\n");
-        out.push((format!("{n} kern instructions with {n} distinct amounts"), s));
+        // lf = 6 + lh 18 + 1 character + nw 2 + nh 1 + nd 1 + ni 1 + nl n + nk n (PLtoTF §130; every amount is
+        // a different fix_word: the texts differ by at least 0.0001 > 2^-20)
+        out.push((format!("{n} kern instructions with {n} distinct amounts"), s, 6 + 18 + 1 + 2 + 1 + 1 + 1 + n + n));
     }
     for (c, name) in [("CODINGSCHEME", 39usize), ("CODINGSCHEME", 40), ("CODINGSCHEME", 41), ("CODINGSCHEME", 300), ("FAMILY", 19), ("FAMILY", 20), ("FAMILY", 21), ("FAMILY", 300)] {
-        out.push((format!("{c} of {name} characters"), format!("({c} {})", "X".repeat(name))));
+        out.push((format!("{c} of {name} characters"), format!("({c} {})", "X".repeat(name)), 0));
     }
     // every face code, in octal
     for v in 0..=256u32 {
-        out.push((format!("FACE O {v:o}"), format!("(FACE O {v:o})(CHARACTER C A (CHARWD R 1.0))")));
+        out.push((format!("FACE O {v:o}"), format!("(FACE O {v:o})(CHARACTER C A (CHARWD R 1.0))"), 0));
     }
     out
 }
@@ -846,7 +871,7 @@ struct Families {
     nesting: Vec<(String, String)>,
     many: Vec<(String, String)>,
     limit_tfms_cell: std::sync::OnceLock<Vec<(String, Vec<u8>)>>,
-    limit_pls_cell: std::sync::OnceLock<Vec<(String, String)>>,
+    limit_pls_cell: std::sync::OnceLock<Vec<(String, String, usize)>>,
     hdr_sweep: Vec<(String, Vec<u8>)>,
     vocab_len: u32,
 }
@@ -867,7 +892,7 @@ impl Families {
     fn limit_tfms(&self) -> &Vec<(String, Vec<u8>)> {
         self.limit_tfms_cell.get_or_init(limit_tfm_cases)
     }
-    fn limit_pls(&self) -> &Vec<(String, String)> {
+    fn limit_pls(&self) -> &Vec<(String, String, usize)> {
         self.limit_pls_cell.get_or_init(limit_pl_cases)
     }
     fn new(d: &Data) -> Families {
@@ -997,8 +1022,14 @@ impl Families {
                 check_text(w, idx, text, &|| text_case(fam, idx, text, what.clone()));
             }
             "pl-size-limits" => {
-                let (what, text) = &self.limit_pls()[idx as usize];
-                check_text(w, idx, text, &|| text_case(fam, idx, text, what.clone()));
+                let (what, text, needs) = &self.limit_pls()[idx as usize];
+                NEEDS_WORDS.with(|c| c.set(*needs));
+                check_text(w, idx, text, &|| {
+                    let mut v = text_case(fam, idx, text, what.clone());
+                    v["needs_words"] = json!(needs);
+                    v
+                });
+                NEEDS_WORDS.with(|c| c.set(0));
             }
             "tfm-size-limits" => {
                 let (what, b) = &self.limit_tfms()[idx as usize];
@@ -1063,6 +1094,7 @@ fn worker_main(args: &[String]) -> ! {
                 if let Some(h) = case["hex"].as_str() {
                     check_bytes(&mut w, 0, &unhex(h), &|| c2.clone());
                 } else if let Some(t) = case["text"].as_str() {
+                    NEEDS_WORDS.with(|c| c.set(case["needs_words"].as_u64().unwrap_or(0) as usize));
                     check_text(&mut w, 0, t, &|| c2.clone());
                 } else {
                     // large cases are rebuilt from their family and index
@@ -1275,8 +1307,10 @@ fn describe_case(d: &Data, f: &Families, fam: &str, idx: u64) -> Value {
             text_case(fam, idx, text, what.clone())
         }
         "pl-size-limits" => {
-            let (what, text) = &f.limit_pls()[idx as usize];
-            text_case(fam, idx, text, what.clone())
+            let (what, text, needs) = &f.limit_pls()[idx as usize];
+            let mut v = text_case(fam, idx, text, what.clone());
+            v["needs_words"] = json!(needs);
+            v
         }
         _ => json!({"kind": "bytes", "family": fam, "index": idx, "tier": if d.thorough { "thorough" } else { "quick" }, "what": "rebuilt from family and index on replay"}),
     }
@@ -1333,6 +1367,7 @@ fn main() {
     let mut ctx = Ctx::new("C10", Level::FaultEnumeration);
     ctx.assume("`readable TFM` = tfm::File::deserialize returns Ok and the independent reader reftex::tfmraw accepts the size table (TFtoPL §20-21 / TeX §565-566 conditions, byte length = 4*lf)");
     ctx.assume("tfm_to_pl output is fed back into pl_to_tfm and pl_to_tfm output into tfm_to_pl: both compositions must also return");
+    ctx.assume("known finding D9b-tfm-too-big applies only to generated property lists whose generator computed that the tables need more than 32767 words, and only if pl_to_tfm returns and the reader rejects the bytes with InconsistentSubFileSizes on a saturated length field");
     ctx.assume("a worker process that dies or makes no progress for 90 s (quick) / 300 s (thorough) on one case counts as a failure of that case");
     let tier = if ctx.quick() { "quick" } else { "thorough" };
     let d = load(!ctx.quick());
